@@ -11,6 +11,7 @@
 (*                 dnsforward.Server;                                      *)
 (*   lvl = "hist"  one step in the life of ONE filter whose table is       *)
 (*                 edited through the API: "reset" (new, empty filter) or  *)
+(*                 a configuration save, or                                *)
 (*                 an edit add / del / upd with its arguments, whether the *)
 (*                 call succeeded, the table the API lists afterwards, and *)
 (*                 the queries asked after the edit (half of them asked    *)
@@ -42,11 +43,18 @@ FiltOK(tab, x) ==
         /\ o.canon = x.canon
         /\ o.ips = ToSet(x.ips)
 
+\* What the mock upstream did when asked for name n: logged per line as a
+\* list of <<name, mode>> for the names that are not simply answered.
+ModeIn(upm, n) == IF \E p \in ToSet(upm) : p[1] = n
+                  THEN (CHOOSE p \in ToSet(upm) : p[1] = n)[2] ELSE "answer"
+
 \* pipeline level: [h, qt, ask, rcode, qok, cname, ips, fromup, odd, answered]
-PipeOK(tab, x) ==
-    /\ x.answered /\ x.qok /\ x.rcode = "NOERROR" /\ x.odd = ""
+\* The reply always carries the client's own question (qok).
+PipeOK(tab, upm, x) ==
+    /\ x.answered /\ x.qok /\ x.odd = ""
     /\ \E o \in Admitted(tab, x.h, x.qt) :
-         LET e == Serve(o, x.h, x.qt) IN
+         LET e == Serve(o, x.h, x.qt, LAMBDA n : ModeIn(upm, n)) IN
+         /\ e.rcode = x.rcode
          /\ e.ask = {<<a[1], a[2]>> : a \in ToSet(x.ask)}
          /\ Len(x.ask) = Cardinality(e.ask)
          /\ e.cname = x.cname
@@ -56,8 +64,8 @@ PipeOK(tab, x) ==
 \* What the specification admits for a query, in the vocabulary of the trace
 \* (reported with every rejected observation so that the orchestrator can
 \* classify it).
-Expected(lvl, tab, x) ==
-    IF lvl = "pipe" THEN {Serve(o, x.h, x.qt) : o \in Admitted(tab, x.h, x.qt)}
+Expected(lvl, tab, upm, x) ==
+    IF lvl = "pipe" THEN {Serve(o, x.h, x.qt, LAMBDA n : ModeIn(upm, n)) : o \in Admitted(tab, x.h, x.qt)}
     ELSE {[r |-> o.r, canon |-> o.canon, ips |-> o.ips] : o \in Admitted(tab, x.h, x.qt)}
 
 RECURSIVE BadFrom(_, _, _)
@@ -65,8 +73,9 @@ BadFrom(i, j, tab) ==
     LET ln == Trace[i] IN
     IF j > Len(ln.qs) THEN <<>>
     ELSE LET x == ln.qs[j]
-             ok == IF ln.lvl = "pipe" THEN PipeOK(tab, x) ELSE FiltOK(tab, x) IN
-         (IF ok THEN <<>> ELSE <<[l |-> i, q |-> j, exp |-> Expected(ln.lvl, tab, x)]>>)
+             upm == IF ln.lvl = "pipe" THEN ln.upm ELSE <<>>
+             ok == IF ln.lvl = "pipe" THEN PipeOK(tab, upm, x) ELSE FiltOK(tab, x) IN
+         (IF ok THEN <<>> ELSE <<[l |-> i, q |-> j, exp |-> Expected(ln.lvl, tab, upm, x)]>>)
            \o BadFrom(i, j + 1, tab)
 
 \* The table after line i.
@@ -74,6 +83,7 @@ After(i) ==
     LET ln == Trace[i] IN
     IF ln.lvl # "hist" THEN [ok |-> TRUE, tab |-> ln.tab]
     ELSE IF ln.ev = "reset" THEN [ok |-> TRUE, tab |-> <<>>]
+    ELSE IF ln.ev = "save" THEN [ok |-> TRUE, tab |-> TabSave(cur)]
     ELSE IF ln.ev = "add" THEN [ok |-> TRUE, tab |-> TabAdd(cur, ln.a)]
     ELSE IF ln.ev = "del" THEN [ok |-> TRUE, tab |-> TabDelete(cur, ln.a)]
     ELSE TabUpdate(cur, ln.a, ln.b)
